@@ -300,6 +300,7 @@ def rand_output(seed: int, big: bool = False, nonfinite: bool = False):
 # an entry name is a top-level key only), and dotted names that share everything up to their last dot (two runs of one sweep,
 # two ISO time stamps of one second: `with_suffix` would map them to one plot file)
 NAMES = ["a", "b", "run 1", "ü", "", "data", "x/y", "a" * 40, "NaN", "q\"uote", "new\nline", "0", "r\udce9sultats",
+         "caf\u00e9", "cafe\u0301", "\u212b", "\u00c5",        # canonically equivalent, DIFFERENT strings: different names
          "metadata", "actions", "net_arch", "pi", "sweep.lr0.1", "sweep.lr0.2", "2026-01-01T10:00:00.123", "2026-01-01T10:00:00.456", "a.b"]
 SIBLING_NAMES = [("sweep.lr0.1", "sweep.lr0.2"), ("2026-01-01T10:00:00.123", "2026-01-01T10:00:00.456"), ("a.b", "a.c")]
 FULL_NAMES = ["a", "b", "run 1", "ü", "data", "NaN", "q\"uote", "0", "data.json",     # usable as a file / directory name by the plot savers
